@@ -96,7 +96,7 @@ def generate(rng, tier, focus, k=None):
     tr["exclude_bogus"] = rng.random() < 0.2
     tr["distractors"] = {"txt": rng.random() < 0.5, "absent_species": rng.random() < 0.5, "system_in_list": rng.random() < 0.5,
                          "start_coordinates": rng.random() < 0.5,
-                         "near_miss": rng.random() < 0.4, "dotted_names": rng.random() < 0.3,
+                         "near_miss": rng.random() < 0.4, "previous_output": rng.random() < 0.35, "dotted_names": rng.random() < 0.3,
                          "itp_style": rng.choice([0, 0, 1, 2, 3, 4, 5]), "other_spelling": rng.random() < 0.5}
     tr["auto_out"] = rng.choice(["abs", "abs", "rel", "default"])
     tr["list_seed"] = rng.randrange(2 ** 31)
@@ -455,6 +455,21 @@ def build_candidates(trace, d):
         q = os.path.join(d, "NEARMISS_CG.itp")
         with open(q, "w") as f:
             f.write(gen.itp_text(nm))
+        cands.append(q)
+    if dis.get("previous_output"):
+        # what an earlier run left in the directory (and `--auto *` picks up): a coordinate file holding SEVERAL molecules in
+        # the final resolution -- it contains each species' end molecule, but it is nobody's end coordinate file
+        lines, atomid, resid = [], 1, 1
+        for rep_ in range(2):
+            for sp in world["species"]:
+                e = sp["end"]
+                ls, nres = gen.gro_atom_lines(e, gen.round3((np.array(e["positions"]) + 0.7 * rep_).tolist()), resid, atomid)
+                lines += ls
+                atomid += len(e["positions"])
+                resid += nres
+        q = os.path.join(d, "earlier_output.gro")
+        with open(q, "w") as f:
+            f.write(gen.gro_text("output of an earlier run", lines, [9.0, 9.0, 9.0]))
         cands.append(q)
     if dis["system_in_list"]:
         cands.append(paths["system"])
